@@ -125,18 +125,48 @@ pub struct Prefix<T, const N: usize> {
 }
 impl<'a, T, const N: usize> IntoIterator for &'a Prefix<T, N> {
     type Item = &'a T;
-    type IntoIter = core::slice::Iter<'a, T>;
+    type IntoIter = PIter<'a, T>;
     fn into_iter(self) -> Self::IntoIter {
-        self.d[..self.len].iter()
+        PIter { it: self.d[..self.len].iter() }
+    }
+}
+// The iterator of a Prefix. By default it reports the exact size hint of a slice. After `loose_hints()` the harness
+// covers, in the same query, a user collection whose iterator reports any *legal* inexact hint (lower bound 0 or exact,
+// upper bound absent or too large by an arbitrary amount): feeding code must count what the iterator yields, not what it
+// announces (seeded change C02-G took the population from the upper size hint).
+pub static LOOSE_HINT: AtomicUsize = AtomicUsize::new(0);
+pub fn loose_hints() {
+    LOOSE_HINT.store(kani::any::<bool>() as usize, SeqCst);
+}
+pub struct PIter<'a, T> {
+    it: core::slice::Iter<'a, T>,
+}
+impl<'a, T> Iterator for PIter<'a, T> {
+    type Item = &'a T;
+    fn next(&mut self) -> Option<&'a T> {
+        self.it.next()
+    }
+    fn size_hint(&self) -> (usize, Option<usize>) {
+        if LOOSE_HINT.load(SeqCst) == 0 {
+            return self.it.size_hint();
+        }
+        let rem = self.it.len();
+        let extra: usize = kani::any();
+        kani::assume(extra <= 1 << 20);
+        let lo = if kani::any() { 0 } else { rem };
+        let hi = if kani::any() { None } else { Some(rem + extra) };
+        (lo, hi)
     }
 }
 pub fn any_prefix_f64<const N: usize>() -> Prefix<f64, N> {
+    loose_hints();
     let d: [f64; N] = kani::any();
     let len: usize = kani::any();
     kani::assume(len <= N);
     Prefix { d, len }
 }
 pub fn any_prefix_f32<const N: usize>() -> Prefix<f32, N> {
+    loose_hints();
     let d: [f32; N] = kani::any();
     let len: usize = kani::any();
     kani::assume(len <= N);
